@@ -16,7 +16,6 @@ import (
 	"github.com/attestantio/vouch/internal/vstub"
 	"github.com/attestantio/vouch/services/chaintime"
 	nullmetrics "github.com/attestantio/vouch/services/metrics/null"
-	"github.com/rs/zerolog"
 )
 
 type c18Headers struct {
@@ -68,7 +67,7 @@ func c18New(ct chaintime.Service, h *c18Headers) *Service {
 	h.blocks = &c18Blocks{fail: true}
 	h.events = &c18Events{}
 	h.sched = &vstub.Scheduler{}
-	s, err := New(context.Background(), WithLogLevel(zerolog.Disabled), WithMonitor(&nullmetrics.Service{}),
+	s, err := New(context.Background(), WithLogLevel(vnd.LogLevel()), WithMonitor(&nullmetrics.Service{}),
 		WithChainTime(ct), WithSignedBeaconBlockProvider(h.blocks), WithBeaconBlockHeadersProvider(h),
 		WithEventsProvider(h.events), WithScheduler(h.sched))
 	vnd.Assert(err == nil && s != nil, "C18.new.accepted")
